@@ -252,7 +252,8 @@ fn content_text(r: &mut Rng) -> Vec<u8> {
 
 pub fn gen_start(r: &mut Rng) -> Start {
     let mut d = RDoc::new();
-    let mut next = 1u32;
+    // (now and then the first numbers stay unused: a writer may give them to its containers)
+    let mut next = 1u32 + if r.chance(1, 3) { 1 + r.below(4) as u32 } else { 0 };
     let mut fresh = |r: &mut Rng| {
         let id = (next, 0u16);
         next += 1 + if r.chance(1, 6) { r.below(5) as u32 } else { 0 };
@@ -1093,11 +1094,66 @@ fn structural(d: &RDoc, id: Id) -> bool {
     res
 }
 
-pub fn run_program(seed: u64, shard: u64, index: u64, out: Option<&mut ShardOut>) -> Option<Finding> {
+/// Everything a program run depends on, so that a witness replays without the generator: the generated model, the
+/// expected page content, the way the lopdf document was obtained (built directly, or loaded from the stored bytes of
+/// a reference-writer file), and the PRNG state from which the steps draw their arguments.
+pub struct ProgInit {
+    pub model: RDoc,
+    pub content: Vec<Vec<Vec<u8>>>,
+    pub xref_stream: bool,
+    pub file: Option<Vec<u8>>,
+    pub rng: [u64; 4],
+    pub len: usize,
+}
+
+impl ProgInit {
+    fn to_json(&self, seed: u64, shard: u64, index: u64, history: &[String]) -> Value {
+        json!({"kind":"program","seed":seed,"shard":shard,"index":index,"history":history,
+            "start":rdoc_to_json(&self.model),
+            "content":self.content.iter().map(|p| p.iter().map(|c| hex(c)).collect::<Vec<_>>()).collect::<Vec<_>>(),
+            "xref_stream":self.xref_stream,
+            "file":self.file.as_ref().map(|b| hex(b)),
+            "rng":self.rng.to_vec(),
+            "len":self.len})
+    }
+    fn from_json(w: &Value) -> Option<ProgInit> {
+        let model = crate::util::rdoc_from_json(w.get("start")?)?;
+        let content = w.get("content")?.as_array()?.iter().map(|p| p.as_array().map(|cs| cs.iter().filter_map(|c| c.as_str().and_then(unhex)).collect::<Vec<_>>())).collect::<Option<Vec<_>>>()?;
+        let rs = w.get("rng")?.as_array()?;
+        if rs.len() != 4 {
+            return None;
+        }
+        let mut rng = [0u64; 4];
+        for (i, x) in rs.iter().enumerate() {
+            rng[i] = x.as_u64()?;
+        }
+        Some(ProgInit {
+            model,
+            content,
+            xref_stream: w.get("xref_stream")?.as_bool()?,
+            file: match w.get("file") {
+                Some(Value::String(h)) => Some(unhex(h)?),
+                _ => None,
+            },
+            rng,
+            len: w.get("len")?.as_u64()? as usize,
+        })
+    }
+}
+
+fn unhex(s: &str) -> Option<Vec<u8>> {
+    if s.len() % 2 != 0 {
+        return None;
+    }
+    (0..s.len() / 2).map(|i| u8::from_str_radix(s.get(2 * i..2 * i + 2)?, 16).ok()).collect()
+}
+
+pub fn gen_program(seed: u64, shard: u64, index: u64) -> ProgInit {
     let mut r = Rng::for_case(seed, TAG, shard, index);
     let start = gen_start(&mut r);
     let via_file = r.chance(1, 3);
-    let mut doc = to_lo_doc(&start.model, r.bool());
+    let xref_stream = r.bool();
+    let mut file = None;
     if via_file {
         // generated -> reference writer -> loaded
         let mut dis = BTreeSet::new();
@@ -1105,25 +1161,48 @@ pub fn run_program(seed: u64, shard: u64, index: u64, out: Option<&mut ShardOut>
             dis.insert(f.to_string());
         }
         let h = crate::refimpl::refwriter::History::from_doc(&start.model);
-        let (w, _) = crate::props::c02::write_history(r.next_u64(), &dis, &h, if r.bool() { crate::refimpl::refwriter::XrefStyle::Table } else { crate::refimpl::refwriter::XrefStyle::Stream }, false);
-        if let Ok(d) = Document::load_mem(&w.bytes) {
+        // (with a cross-reference stream, half of the files keep their non-stream objects in object streams, whose
+        // containers may take numbers from gaps: the highest number can then belong to a compressed object)
+        let wseed = r.next_u64();
+        let style = if r.bool() { crate::refimpl::refwriter::XrefStyle::Table } else { crate::refimpl::refwriter::XrefStyle::Stream };
+        let objstm = style == crate::refimpl::refwriter::XrefStyle::Stream && r.bool();
+        let mut ch = crate::refimpl::refwriter::Choices::new(wseed);
+        ch.disabled = dis;
+        let mut rw = crate::refimpl::refwriter::RefWriter::new(&mut ch);
+        rw.prefer_gap_numbers = objstm && r.bool();
+        let w = rw.write(&h, style, objstm);
+        file = Some(w.bytes);
+    }
+    let len = 1 + r.usize_below(40);
+    ProgInit { model: start.model, content: start.content, xref_stream, file, rng: r.state(), len }
+}
+
+pub fn run_program(seed: u64, shard: u64, index: u64, out: Option<&mut ShardOut>) -> Option<Finding> {
+    exec_program(&gen_program(seed, shard, index), seed, shard, index, out)
+}
+
+pub fn exec_program(init: &ProgInit, seed: u64, shard: u64, index: u64, out: Option<&mut ShardOut>) -> Option<Finding> {
+    let mut r = Rng::from_state(init.rng);
+    let mut doc = to_lo_doc(&init.model, init.xref_stream);
+    if let Some(bytes) = &init.file {
+        if let Ok(d) = Document::load_mem(bytes) {
             doc = d;
             // container objects of the file are ordinary (unreachable) objects from here on
         }
     }
-    let mut st = State { doc, content: start.content.clone(), counts_held: true, history: vec![] };
+    let mut st = State { doc, content: init.content.clone(), counts_held: true, history: vec![] };
     let s_init = snapshot(&st.doc);
     if let Some((sig, what)) = check_global(&st, &s_init, "initial") {
-        return Some(Finding { signature: format!("C11/harness-initial/{}", sig), what, witness: json!({"kind":"program","seed":seed,"shard":shard,"index":index}) });
+        return Some(Finding { signature: format!("C11/harness-initial/{}", sig), what, witness: init.to_json(seed, shard, index, &[]) });
     }
-    let len = 1 + r.usize_below(40);
+    let len = init.len;
     let mut found = None;
     for stepno in 0..len {
         if let Some((sig, what)) = step(&mut st, &mut r) {
             found = Some(Finding {
                 signature: format!("C11/{}", sig),
                 what: format!("step {} of {} ({}): {}", stepno + 1, len, st.history.join(" > "), what),
-                witness: json!({"kind":"program","seed":seed,"shard":shard,"index":index,"history":st.history,"start":rdoc_to_json(&start.model)}),
+                witness: init.to_json(seed, shard, index, &st.history),
             });
             break;
         }
@@ -1173,7 +1252,11 @@ pub fn run(cfg: &RunCfg) -> (PropMeta, ShardOut, Map<String, Value>) {
 
 pub fn replay(w: &Value) -> Vec<Finding> {
     let g = |kk: &str| w.get(kk).and_then(|x| x.as_u64()).unwrap_or(0);
-    run_program(g("seed"), g("shard"), g("index"), None).into_iter().collect()
+    // self-contained witnesses carry the start state; older ones only name the case and are regenerated
+    match ProgInit::from_json(w) {
+        Some(init) => exec_program(&init, g("seed"), g("shard"), g("index"), None).into_iter().collect(),
+        None => run_program(g("seed"), g("shard"), g("index"), None).into_iter().collect(),
+    }
 }
 
 #[allow(dead_code)]
